@@ -31,9 +31,7 @@ class StepPrims:
         self.hp = P.HandlerPrims(facts, ctx.roles)
         self.decode_next = ctx.roles.decoders()[0]
         self.dispatch = ctx.dispatch.top["path"]
-        self.mnemonic_hooks = facts.method(AXE, "mnemonic_hooks")["path"]
-        self.run_before = self._one_in("state::hooks::Hook", "run_before")
-        self.run_after = self._one_in("state::hooks::Hook", "run_after")
+        _rf, self.run_before, self.run_after, self.mnemonic_hooks, _em = ctx.roles.hook_roles()
         self.renderers = {facts.method(AXE, n)["path"] for n in ("call_stack", "trace")}
 
     def _one_in(self, impl_self, name):
